@@ -131,6 +131,8 @@ func classifyStore(w *World, s *Store) (ok bool, form string) {
 }
 
 func runC13(w *World, r *Report) {
+	r.Rule("observers", "methods that formatting calls implicitly (String, Error, …) leave the value unchanged", 1)
+	observerRule(w, r, "observers", "openflow13", "common", "util")
 	r.Rule("stateless", "sizing and encoding depend on no package-level state that a call can change: no pooled scratch, no cache, no shared table entry handed out", 8)
 	importStateless(w, r, "stateless")
 	r.Rule("idempotent", "every store of Len/MarshalBinary/Read into receiver-reachable memory has an idempotent form", 15)
